@@ -540,12 +540,28 @@ def cache_body_rules(R, prefix, wrapper_fi, cache_expr_pred, what):
             continue
         defs = [n for n in cfg.nodes if n.kind == "stmt" and isinstance(n.ast, ast.Assign) and any(isinstance(t, ast.Name) and t.id == kname for t in n.ast.targets)]
         bad = None
+
+        def lossy(x):
+            return isinstance(x, ast.Call) and ((isinstance(x.func, ast.Name) and x.func.id in LOSSY and x.args) or
+                                                (isinstance(x.func, ast.Attribute) and x.func.attr in ("__hash__", "__str__", "__repr__", "__len__")))
+
+        def carries_full(e):
+            # does the whole normalised tuple still reach the table through e?  (a digest kept *next to* the full key is harmless)
+            if lossy(e):
+                return False
+            if isinstance(e, (ast.Tuple, ast.List)):
+                return any(carries_full(x) for x in e.elts)
+            if isinstance(e, ast.BinOp) and isinstance(e.op, ast.Add):
+                return carries_full(e.left) or carries_full(e.right)
+            if isinstance(e, ast.Starred):
+                return carries_full(e.value)
+            if isinstance(e, ast.Call):
+                return True if not any(lossy(x) for a in e.args for x in ast.walk(a)) else any(carries_full(a) for a in e.args)
+            return isinstance(e, (ast.Name, ast.Attribute, ast.Subscript))
         for d in defs:
-            for x in ast.walk(d.ast.value):
-                if isinstance(x, ast.Call) and isinstance(x.func, ast.Name) and x.func.id in LOSSY and x.args:
-                    bad = (d, x)
-                if isinstance(x, ast.Call) and isinstance(x.func, ast.Attribute) and x.func.attr in ("__hash__", "__str__", "__repr__", "__len__"):
-                    bad = (d, x)
+            hits = [x for x in ast.walk(d.ast.value) if lossy(x)]
+            if hits and not carries_full(d.ast.value):
+                bad = (d, hits[0])
         R.check(bad is None, prefix + ".KEY-INJECTIVE", wrapper_fi.qualname + ":" + kname, R.site(wrapper_fi, bad[0].ast if bad else None) if bad else site,
                 "the cache key is the normalised argument tuple itself (no lossy digest between the key function and the table)",
                 "%s keys its table on `%s`: distinct argument tuples that collide under %s share one slot, so a call returns the value cached for "
